@@ -283,11 +283,14 @@ def check_lifecycle(seq) -> Res:
     home = L["dir"]
     if "d" not in _AWAY:
         _AWAY["d"] = tempfile.mkdtemp(prefix="vt-c10away-", dir="/dev/shm")
-    path = os.path.join(home, "specs", "schemas", "life.oct.md")
+    # one schema NAME per event sequence: whatever the process remembers about other names cannot leak in, so every reported
+    # sequence is a self-contained history (and replays from a fresh process)
+    LIFE = "LIFE_" + hashlib.sha1("/".join(seq).encode()).hexdigest()[:8].upper()
+    LIFE_DOC = inst(f"{LIFE}:\n  STATUS::ACTIVE\n  NAME::n\n")
+    path = os.path.join(home, "specs", "schemas", LIFE.lower() + ".oct.md")
     os.chdir(home)
     if os.path.exists(path):
         os.unlink(path)
-    L["installed"].pop(LIFE, None)
     cwd, file = "home", "absent"
     viol = []
     steps = 0
@@ -325,6 +328,8 @@ def check_lifecycle(seq) -> Res:
         if visible != "absent" and r.get("schema_version") not in (None, {"v1": "1.0", "v2": "2.0"}[visible]):
             viol.append(dict(descriptor=f"lifecycle:validate:schema_version-of-another-text", case=cs, observed=r.get("schema_version"), expected={"v1": "1.0", "v2": "2.0"}[visible]))
     os.chdir(home)
+    if os.path.exists(path):
+        os.unlink(path)
     return Res("ok" if not viol else "violations", nontrivial=tuple(seq), violations=viol[:3], transitions=steps)
 
 
